@@ -328,7 +328,10 @@ class Prop(bfs.BfsProp):
                     'rebuild': after != before}
         h = None
         try:
-            nolist = int(getattr(new, 'NVARS', 1)) == 0
+            # (only when really nothing is listable: a result with NVARS = 0 that holds a variable with the
+            # standard dimensions and a name of at most 16 characters is a violation like any other)
+            nolist = int(getattr(new, 'NVARS', 1)) == 0 and not any(
+                tuple(v_.dimensions) in (STD4, STD3) and len(k_) <= 16 for k_, v_ in new.variables.items())
         except Exception:
             nolist = False
         if nolist:
